@@ -1,23 +1,23 @@
 (* Props/C01.v — Formula operators keep their Excel meaning.  Statements only. *)
 Require Import X2P.Base.Prelude X2P.Base.F64 X2P.Base.PyCmp X2P.Base.PyNum X2P.Base.PyArith.
 Require Import X2P.Model.Peg X2P.Model.Emit X2P.Gen.Grammar X2P.Spec.Formula X2P.Spec.Shape X2P.Corr.C01.
-Require Import X2P.Proofs.FormulaSweep X2P.Proofs.FormulaProofs X2P.Proofs.FormulaRefute X2P.Proofs.FormulaCore.
+Require Import X2P.Proofs.FormulaSweep X2P.Proofs.FormulaSweep7 X2P.Proofs.FormulaProofs X2P.Proofs.FormulaRefute X2P.Proofs.FormulaCore.
 Open Scope string_scope.
 
-(* the precedence / associativity table, kernel-exhaustive: for EVERY sequence of 1..6 tokens over {atom + - * / & < % ( )} that Excel
+(* the precedence / associativity table, kernel-exhaustive: for EVERY sequence of 1..7 tokens over {atom + - * / & < % ( )} that Excel
    reads as a formula (xparse: % > sign > * / > + - > & > comparisons, left-associative), the translator (token-set parser over the
    regenerated grammar table, emitter, Python's own grouping of the emitted text) groups it as Excel does — or the sequence lies in one
-   of the three listed defect classes of the emitter, or is rejected because of the two percent forms.  Bound: length 6 (1 111 110
-   sequences, 1062 formulas of length 6). *)
-Theorem C01_precedence_table_le6_partial : forall ids xe,
-  (1 <= List.length ids <= 6)%nat -> Forall (fun a => In a ALPHA) ids ->
+   of the three listed defect classes of the emitter, or is rejected because of the two percent forms.  Bound: length 7 (11 111 110
+   sequences; 1062 formulas of length 6, 4643 of length 7). *)
+Theorem C01_precedence_table_le7_partial : forall ids xe,
+  (1 <= List.length ids <= 7)%nat -> Forall (fun a => In a ALPHA) ids ->
   xparse (toks_of ids) = Some xe ->
   match translate_tokens (toks_of ids) with
   | TOk pe => same_grouping xe pe = true \/ grouping_class (toks_of ids) <> "-"
   | TRejected => percent_form (map kind_of (toks_of ids)) = true
   | _ => False
   end.
-Proof. exact precedence_table. Qed.
+Proof. exact precedence_table7. Qed.
 Theorem C01_table_inhabited :
   List.length (filter grouped_right (seqs 6)) = 565%nat /\
   List.length (filter (fun s => match xparse (toks_of s) with Some _ => true | None => false end) (seqs 6)) = 1062%nat.
